@@ -111,6 +111,9 @@ class Check:
     def required_reach(self, tier):
         return []
 
+    def golden_info(self, w, ix):
+        return {}
+
 
 def replayed_terminal(w):
     """Number of (invocation, operation) pairs where a later invocation found a terminal op."""
@@ -353,10 +356,25 @@ class C07(Check):
             "faults stop; non-trivial iff >=1 PENDING return")
     base_profile = {"weights": {"wait": 4, "callback": 2, "wfc": 2, "invoke": 2, "wfcond": 2, "parallel": 4, "map": 2, "step": 4},
                     "fault_kinds": ["crash-api", "crash-fn", "crash-step", "spurious", "spurious"],
-                    "blocks": [0, 0, 0.05, 0.5, 2.0, 8.0]}
+                    "blocks": [0, 0, 0.05, 0.5, 2.0, 8.0], "try_p": 0.4, "cfg_p": 0.8, "fail_p": 0.4}
+
+    @staticmethod
+    def invocation_bound(cfg):
+        """Upper bound on the invocations a terminating execution may need: every operation can park the
+        execution once, plus once per retry / poll it may record; x3 for wake-ups that find a sibling still
+        parked, +2 per injected fault."""
+        units = 0
+        for st in oracles.statements(cfg["program"]).values():
+            units += 1
+            if st["op"] in ("step", "wfc"):
+                m = oracles.strategy_model(st.get("retry"))
+                units += (m["max_attempts"] or 6) - 1
+            elif st["op"] == "wfcond":
+                units += len(st["strategy"])
+        return 3 * units + 5 + 2 * len(cfg.get("faults", []))
 
     def oracle(self, ix, cfg, golden):
-        return oracles.check_c07(ix)
+        return oracles.check_c07(ix, self.invocation_bound(cfg))
 
     def nontrivial(self, w, ix, cfg):
         return any(i["outcome"] == "PENDING" for i in w.invocations)
@@ -402,9 +420,21 @@ class C08(Check):
                     "max_depth": 3, "max_ops": 22, "fail_p": 0.15}
     quick_cases = 300
 
+    def golden_info(self, w, ix):
+        return {"ids": oracles.c08_path_ids(ix)}
+
     def oracle(self, ix, cfg, golden):
-        # single-execution part; the cross-execution part is done in run_case via `cross`
-        return oracles.check_c08(ix)
+        other = None
+        if cfg.get("faults"):
+            if golden is not None and golden.get("ids") is not None:
+                other = golden["ids"]
+            else:  # replay / minimisation: recompute the fault-free execution of the same program
+                from dexsim.driver import run_execution
+                g = dict(cfg)
+                g["faults"] = []
+                g.pop("choices", None)
+                other = oracles.c08_path_ids(oracles.Index(run_execution(g)))
+        return oracles.check_c08(ix, other)
 
     def nontrivial(self, w, ix, cfg):
         branches = {e["pos"] for e in ix.kinds["body-enter"] if e.get("bkind") == "branch"}
@@ -834,8 +864,8 @@ class C09(Check):
                 cfgc["min"] = rng.randrange(1, max(2, n + 1))
             if rng.random() < 0.45:
                 cfgc["tol"] = rng.choice([0, 1, 2, max(0, n - 1)])
-            if rng.random() < 0.25:
-                cfgc["pct"] = rng.choice([0, 34, 50, 100])
+            if rng.random() < 0.3:
+                cfgc["pct"] = rng.choice([0, 14, 16, 20, 25, 33, 34, 50, 66, 100])
             if rng.random() < 0.45:
                 cfgc["conc"] = rng.choice([1, 2, max(1, n)])
             if rng.random() < 0.2:
@@ -978,6 +1008,7 @@ class C16(Check):
         knobs = gen.gen_knobs(random.Random(H(seed_i, "knobs")), prof)
         if "batch" in knobs:
             knobs["batch"]["bytes"] = max(knobs["batch"]["bytes"], 750 * 1024)
+        knobs.pop("limits", None)
         cfg = {"program": program, "externals": ext, "seed": seed_i % (1 << 31), "sched": sched, "faults": [], "max_inv": 30,
                "limits": {"ckpt": ck, "resp": rl}}
         cfg.update(knobs)
